@@ -359,6 +359,11 @@ func (f *Flow) Send() {
 	case 6:
 		rcp = make([]byte, 20)
 		g.stats.Mut("send-recipient-20-zero")
+	case 9:
+		if tm := f.messengers[dest]; tm != nil {
+			rcp = append([]byte(nil), tm...)
+			g.stats.Mut("send-recipient-is-the-token-messenger")
+		}
 	case 7:
 		rcp = g.sparse32()
 		g.stats.Mut("send-recipient-one-byte")
